@@ -123,6 +123,10 @@ pub struct NOp {
 pub struct NLifetime {
     pub ops: Vec<NOp>,
     pub exit_panic: bool,
+    /// what the rest of the process did since the previous lifetime: "reprotect_text" = the
+    /// synthetic code pages are r-x again
+    #[serde(default)]
+    pub pre: Vec<String>,
 }
 
 #[derive(Serialize, Deserialize, Clone, Debug, PartialEq)]
@@ -478,7 +482,12 @@ pub fn generate(profile: &str, seed: u64, index: u64) -> NScenario {
         }
         let exit_panic = rng.chance(1, 4);
         classes.push(if exit_panic { "exit-panic".into() } else { "exit-drop".into() });
-        lifetimes.push(NLifetime { ops, exit_panic });
+        let mut pre: Vec<String> = Vec::new();
+        if !lifetimes.is_empty() && rng.chance(1, 3) {
+            pre.push("reprotect_text".into());
+            classes.push("env-reprotect-text".into());
+        }
+        lifetimes.push(NLifetime { ops, exit_panic, pre });
     }
     classes.sort();
     classes.dedup();
@@ -1065,6 +1074,13 @@ pub fn execute(sc: &NScenario, sh: &Shared) -> Value {
     for (li, lt) in sc.lifetimes.iter().enumerate() {
         for n in run.named.iter_mut() {
             *n = false;
+        }
+        if lt.pre.iter().any(|e| e == "reprotect_text") {
+            // not an injector action: the interposer is not armed
+            for (a, p) in &sc.arenas {
+                arena::seal_rx(*a, *p * PS);
+            }
+            *run.faults.entry("env_text_reprotected_between_lifetimes".into()).or_insert(0) += 1;
         }
         run.pending_expectation = false;
         let mut inj_holder: Option<InjectorPP> = None;
